@@ -337,6 +337,7 @@ func (t *streamableHTTPClientTransport) send(
 	contentType := httpResp.Header.Get(httputil.ContentTypeHeader)
 	if strings.Contains(contentType, httputil.ContentTypeSSE) {
 		// Handle response as SSE
+		defer httpResp.Body.Close()
 		return t.handleSSEResponse(ctx, httpResp, req.ID, options)
 	}
 
